@@ -47,6 +47,15 @@ def e1_collect(ctx, rep):
         has = [v for (dk, v) in p.decisions if dk == ("discr", eff)]
         pushes = [e for e in p.calls() if e.ck == "std::vec::Vec::push" and "Effect<" in ((e.site.fn.get("args") or [""])[0])]
         n += 1
+        # `effects.extend(effect)`: an Option is an iterator of zero or one item, so this collects
+        # the effect exactly when there is one
+        ext = [e for e in p.calls() if e.ck == "std::iter::Extend::extend" and len(e.args) > 1 and e.args[1] == eff and "Effect<" in " ".join(e.site.fn.get("args") or [])]
+        if ext and not has:
+            rep.check(len(ext) == 1 and not pushes, R, "effect-collected:%s:%s" % (arm, short(body.path)), ctx.where(body, ext[0].bb),
+                      "path [%s]: the returned Option<Effect> is appended with extend()" % p.describe(), "path [%s]: %d extend / %d push of the returned effect" % (p.describe(), len(ext), len(pushes)))
+            vecs.add(strip_wrap(ext[0].args[0]))
+            n += 1  # stands for both outcomes of the option
+            continue
         if not has:
             rep.bad(R, "effect-option-ignored:%s:%s" % (arm, short(body.path)), ctx.where(body), "path [%s]: the %s answer's effect is never looked at" % (p.describe(), arm))
             continue
